@@ -107,14 +107,15 @@ pub fn build(mode: Mode, hist: &[Txn], txn: &Txn) -> Case {
     let hist_has_assert_after_omitted = hist.iter().any(|t| rl::omitted_then_constraint_same_account(t) == Some("assert"));
     match mode {
         Mode::Plain | Mode::Alias => {
-            let header = if mode == Mode::Alias { "account A\n  alias a\n\naccount B\n  alias b b\n\n".to_string() } else { String::new() };
+            let header = if mode == Mode::Alias { "account A\n  alias a\n  note the main account\n  alias a2\n\naccount B\n  alias b b\n\n".to_string() } else { String::new() };
             let mut all: Vec<Txn> = hist.to_vec();
             all.push(txn.clone());
             let last = all.len() - 1;
-            let r = rl::render(&header, &all, &|ti, _, a| {
+            let r = rl::render(&header, &all, &|ti, pi, a| {
                 if mode == Mode::Alias && ti == last {
                     match a {
-                        "A" => "a".to_string(),
+                        // the first alias on even posting positions, the second (declared after a note line) on odd ones
+                        "A" => (if pi % 2 == 0 { "a" } else { "a2" }).to_string(),
                         "B" => "b b".to_string(),
                         o => o.to_string(),
                     }
@@ -264,7 +265,7 @@ pub fn enumerate_depth1(ctx: &mut Ctx, relevant: &dyn Fn(&Txn) -> bool, judge: &
     }
 }
 
-/// The 24-transaction alphabet of the history search (engine b).
+/// The 27-transaction alphabet of the history search (engine b).
 pub fn txn_alphabet() -> Vec<Txn> {
     let a = |v, c| P::amt("A", v, c);
     let b = |v, c| P::amt("B", v, c);
@@ -300,6 +301,11 @@ pub fn txn_alphabet() -> Vec<Txn> {
         vec![P::assign("A", Bal::Val("0", "X")), P::omitted("E")],
         vec![b("1", "Y").with_bal(Bal::Val("1", "Y")), a("-1", "Y")],
         vec![P::assign("B", Bal::Val("2", "X")), a("-1", "X").with_bal(Bal::Val("0", "X")), P::omitted("E")],
+        // an inferred posting whose siblings leave a zero-valued commodity next to a non-zero one: the account must
+        // hold the non-zero commodity only (a following bare `= 0` is a single-commodity assignment)
+        vec![b("0", "X"), b("2", "Y"), P::omitted("A")],
+        vec![a("0", "Y"), a("1", "X"), P::omitted("B")],
+        vec![P::assign("B", Bal::Zero), P::omitted("E")],
     ]
 }
 
